@@ -917,5 +917,9 @@ def run(chk, fb, tier):
     chk.floor("D7", "first-element accesses on token lists", _d7(chk, fb, fns), 1)
     chk.rule("D8", "std::map::at(K) is dominated by a presence test of the same key K in the same map")
     chk.floor("D8", "map::at accesses", _d8(chk, fb, fns), 4)
+    from . import argswap as _argswap
+    chk.rule("DA", "argument/parameter name agreement at forwarding calls in the anchored units (same-typed parameters must not be swapped)")
+    _af = ('src/Bpp/Text/TextTools.cpp', 'src/Bpp/Text/StringTokenizer.cpp', 'src/Bpp/Text/NestedStringTokenizer.cpp', 'src/Bpp/Text/KeyvalTools.cpp', 'src/Bpp/Utils/AttributesTools.cpp', 'src/Bpp/App/ApplicationTools.cpp', 'src/Bpp/Io/FileTools.cpp', 'src/Bpp/Numeric/DataTable.cpp', 'src/Bpp/Io/BppODiscreteDistributionFormat.cpp', 'src/Bpp/Numeric/Constraints.h', 'src/Bpp/Numeric/Function/Operators/ComputationTree.cpp', 'src/Bpp/Numeric/ParameterList.cpp', 'src/Bpp/App/NumCalcApplicationTools.cpp')
+    _argswap.check(chk, fb, "DA", [f_ for f_ in fb.concrete_fns() if f_.body is not None and any(f_.relfile.endswith(x_) for x_ in _af)], 1)
     chk.assume("std::string::operator[](size()) and substr(size()) are defined; a count argument larger than the remainder is clamped")
     chk.assume("members listed in MAY_BE_EMPTY_MEMBERS can be left empty by a public constructor (read once by hand)")
